@@ -668,6 +668,7 @@ def is_scalar(x):
 
 
 class Flags:
+    wrap_narrow = False  # symbolic stores into uint8/uint16/int16 arrays fork on 'fits' and wrap on the other branch
     check_dtype = False  # dtype-fit obligation on symbolic stores (concrete stores are always checked)
     track_dtypes = False  # concrete reads from typed arrays carry their dtype; out-of-type results are mode hazards
     hazards = []
@@ -903,6 +904,13 @@ class SArray:
             elif isinstance(v, SymInt):
                 if self.dtype == "bool":
                     v = mk_bool(v.e != 0)
+                elif FLAGS.wrap_narrow and self.dtype in ("uint8", "uint16", "int16"):
+                    # a store that does not fit a narrow integer type wraps silently (NumPy scalar -> array element, and compiled
+                    # code): the path FORKS, and on the branch where it does not fit the wrapped value is what the cell holds
+                    FLAGS.obligations["dtype_checks"] += 1
+                    if ENGINE.branch(z3.Or(v.e < lo, v.e > hi)):
+                        FLAGS.obligations["narrow_wraps"] = FLAGS.obligations.get("narrow_wraps", 0) + 1
+                        v = mk_int((v.e - lo) % (hi - lo + 1) + lo)
                 elif FLAGS.check_dtype:
                     FLAGS.obligations["dtype_checks"] += 1
                     bad = z3.Or(v.e < lo, v.e > hi)
